@@ -47,8 +47,17 @@ def _nest(x, a, b, g_of_x):
     return (a + b * x) * g_of_x(x)
 
 
-DEPFUNCS = {"lin": (_lin, None), "power3": (_power3, [(0, None), (0, None), (None, None)]),
-            "exp3": (_exp3, [(0, None), (0, None), (None, None)])}
+def _w1(x, y):
+    """weights callable of a dependence function (virocon hands the result to curve_fit as sigma)"""
+    return 1.0 + np.abs(np.asarray(x, dtype=float))
+
+
+# name -> (function, bounds, weights): all four combinations of bounds / weights for the linear one
+DEPFUNCS = {"lin": (_lin, None, None), "lin_w": (_lin, None, _w1), "lin_b": (_lin, [(None, None), (-50, 50)], None),
+            "lin_bw": (_lin, [(None, None), (-50, 50)], _w1),
+            "power3": (_power3, [(0, None), (0, None), (None, None)], None),
+            "exp3": (_exp3, [(0, None), (0, None), (None, None)], None)}
+LIN_KINDS = ["lin", "lin_w", "lin_b", "lin_bw"]
 
 
 def make_template(V, name):
@@ -152,8 +161,8 @@ def build_model(spec):
                     if nested_pass:
                         df = V.DependenceFunction(_nest, None, g_of_x=made[dm["deps"][pn]["nested_on"]])
                     else:
-                        f, bounds = DEPFUNCS[dm["deps"][pn]]
-                        df = V.DependenceFunction(f, bounds)
+                        f, bounds, wfun = DEPFUNCS[dm["deps"][pn]]
+                        df = V.DependenceFunction(f, bounds, weights=wfun)
                     df._c09_tag = dep_id
                     b.init_d[dep_id] = [float(v) for v in df.parameters.values()]
                     b.dep_ids[(i, pn)] = dep_id
@@ -298,7 +307,7 @@ def gen_spec(rng, n_rows, kindpref=None):
             deps = {}
             for pn in t.parameters:
                 if getattr(t, "f_" + pn) is None:
-                    deps[pn] = "lin" if rng.random() < 0.8 else rng.choice(["power3", "exp3"])
+                    deps[pn] = rng.choice(LIN_KINDS) if rng.random() < 0.8 else rng.choice(["power3", "exp3"])
             dm = {"template": tname, "conditional_on": c, "deps": deps}
         dm["slicer"] = gen_slicer(rng, n_rows, kindpref) if (is_conditioner or rng.random() < 0.2) else None
         dims.append(dm)
@@ -393,6 +402,11 @@ def gen_case(ctx, k, big=False):
         spec["fds"] = [{"method": "wlsq", "weights": wopts[(k // 10 + j) % 4]} for j in range(len(spec["dims"]))]
         if variant == "sorted":
             variant = "shuffled"
+    if k % 10 == 1:
+        # dependence functions with every combination of bounds / weights in turn
+        for dm in spec["dims"]:
+            if dm["conditional_on"] is not None:
+                dm["deps"] = {pn: LIN_KINDS[(k // 10 + j) % 4] for j, pn in enumerate(dm["deps"])}
     if k % 10 == 4:
         # float coincidences: decimal widths (no binary fractions) with conditioning values rounded to one decimal,
         # i.e. many observations exactly on interval edges
@@ -716,9 +730,44 @@ def check_calls(b, spec, fds, out, rec):
                     return ({"clause": "dependence-fit"}, "dimension %d: dependence function of %s was not fitted" % (i, pn))
                 if c["x"] != d["conditioning_values"] or c["y"] != [p[j] for p in d["pars"]]:
                     return ({"clause": "dependence-fit"}, "dimension %d: dependence function of %s is not fitted to (conditioning values, %s estimates)" % (i, pn, pn))
+                v = independent_dep_fit(b, i, pn, c)
+                if v:
+                    return v
         else:
             if len(calls) != 1:
                 return ({"clause": "template-fits"}, "dimension %d (unconditional): %d fits" % (i, len(calls)))
+    return None
+
+
+_DEP_REFITS = {}
+
+
+def independent_dep_fit(b, i, pn, c):
+    """the fitted parameters of a dependence function equal an independent scipy fit of its function to the
+    (conditioning value, estimate) pairs with ITS configured bounds and weights (as sigma), same start values"""
+    df = b.model.distributions[i].conditional_parameters[pn]
+    if df.dependent_parameters or df.constraints is not None:
+        return None                      # nested / constrained ones: other clauses
+    from scipy.optimize import curve_fit
+    import warnings
+    x, y = np.array(c["x"], dtype=float), np.array(c["y"], dtype=float)
+    kw = {}
+    if df.weights is not None:
+        kw["sigma"] = df.weights(x, y)
+    if df.bounds is not None:
+        kw["bounds"] = ([-np.inf if lo is None else lo for lo, _ in df.bounds], [np.inf if hi is None else hi for _, hi in df.bounds])
+    try:
+        with warnings.catch_warnings(), np.errstate(all="ignore"):
+            warnings.simplefilter("ignore")
+            popt, _ = curve_fit(df.func, x, y, c["pre"], **kw)
+    except Exception:
+        return None
+    _DEP_REFITS[(df.bounds is not None, df.weights is not None)] = _DEP_REFITS.get((df.bounds is not None, df.weights is not None), 0) + 1
+    if not all(relclose(float(a), float(bb), 1e-6, 1e-9) for a, bb in zip(popt, c["post"])):
+        return ({"clause": "dependence-fit", "kind": "independent-fit", "bounds": df.bounds is not None, "weights": df.weights is not None},
+                "dimension %d: dependence function of %s (bounds %s, weights %s) has parameters %r, an independent fit to the "
+                "(conditioning value, estimate) pairs with its bounds and weights gives %r" % (
+                    i, pn, "set" if df.bounds is not None else "None", "set" if df.weights is not None else "None", c["post"], [float(v) for v in popt]))
     return None
 
 
@@ -1518,6 +1567,7 @@ def run(ctx):
             rep = dict(ec, data=[[float(v) for v in r] for r in np.asarray(ec["data"], dtype=float)])
             if ctx.violation(o[0], "joint fit (%s, %d rows): %s" % (label, len(ec["data"]), o[1]), rep):
                 extra_found += 1
+    ctx.notes["independent_dependence_fits (bounds set, weights set)"] = {str(k): v for k, v in sorted(_DEP_REFITS.items())}
     ctx.notes["seconds_total_before_finish"] = round(_t.time() - ctx.t0, 1)
     if ctx.notes.get("oracle_crashes", 0) > max(2, len(order) // 4):
         ctx.broken.append(("search", "property oracle crashed on %d cases" % ctx.notes["oracle_crashes"], ctx.notes.get("oracle_crash_last", "")))
